@@ -143,6 +143,17 @@ def run(ctx):
             r.fail('%s:%s:re-preprocess' % (CRATE, name), where(f), 'the expansion is not preprocessed again: nested usages inside a macro body stay unexpanded')
         elif len(calls) != 1:
             r.undecided('%s:%s:re-preprocess' % (CRATE, name), where(f), '%d nested preprocess calls' % len(calls))
+        # must-pass-through: every exit that hands back an expansion (`Ok(Some(..))`) went through the nested run — that run is what
+        # expands nested usages, processes directives of the expansion and applies strip_comments to it
+        if calls:
+            from vlib import paths as _paths
+            ex = _paths.exits_avoiding(body, lambda n: any(n is c_ for c_ in calls))
+            bypass = [e_ for e_ in ex if sx.is_call(e_, 'Ok') and e_['args'] and sx.is_call(e_['args'][0], 'Some')]
+            r.inst('re-preprocess-on-every-expansion', {'exits_reachable_without_the_nested_run': [sq(e_)[:40] for e_ in ex][:6]})
+            if bypass:
+                r.fail('%s:%s:re-preprocess-bypassed' % (CRATE, name), pp.where(bypass[0].get('l') or f['l']),
+                       '%s can return an expansion (`%s`) without preprocessing it again: nested usages and directives in it stay as they are and '
+                       'strip_comments is not applied to it' % (name, sq(bypass[0])[:60]))
     # --------------------------------------------------------------------------------------------- X14
     tab = table_var(pp)
     writes = []
